@@ -2,7 +2,7 @@
    Model: Model/Needs.v (transcription of SyncStateV1::compute_available_needs).
    Proofs: Proofs/NeedsProofs.v. *)
 From Coq Require Import List ZArith Bool Lia.
-From Corro Require Import Lib.Ivl Model.Needs Proofs.NeedsProofs.
+From Corro Require Import Lib.Ivl Model.Book Model.BookOps Model.Needs Proofs.BookProofs Proofs.NeedsProofs Proofs.SessionProofs.
 Import ListNotations.
 Open Scope Z_scope.
 
@@ -43,6 +43,32 @@ Theorem C04_partial_exact : forall us other a v seqs ours q,
   (req_seq (compute_available_needs us other) a v q <-> mem q seqs).
 Proof. exact needs_partial_held. Qed.
 Print Assumptions C04_partial_exact.
+
+(* Composition with C02 (the advertisement is the exact partition of the bookkeeping): stated
+   on the bookkeeping states themselves.  bA = the requester's bookkeeping for origin actor a,
+   bB = the server's, both satisfying the invariant every reachable state satisfies (C02);
+   ss_of = the SyncStateV1 each node generates from it.  Every version the server holds and the
+   requester lists as needed or has not heard of is requested in full ... *)
+Theorem C04_request_covers_what_peer_holds : forall meA meB a bA rsA bB rsB v,
+  Inv bA rsA -> Inv bB rsB -> a <> meA -> 1 <= v ->
+  classify bB v = Held ->
+  (classify bA v = Needed \/ classify bA v = Beyond) ->
+  req_full (compute_available_needs (ss_of meA a (sync_actor bA)) (ss_of meB a (sync_actor bB))) a v.
+Proof.
+  intros meA meB a bA rsA bB rsB v. apply request_covers_what_peer_holds. vm_compute. reflexivity.
+Qed.
+Print Assumptions C04_request_covers_what_peer_holds.
+
+(* ... and of a version the requester holds partially, exactly its missing seqs are requested *)
+Theorem C04_partial_request_is_exactly_the_missing_seqs : forall meA meB a bA rsA bB rsB v p q,
+  Inv bA rsA -> Inv bB rsB -> a <> meA -> 1 <= v ->
+  classify bB v = Held -> classify bA v = PartialC -> aget v (partials bA) = Some p ->
+  (req_seq (compute_available_needs (ss_of meA a (sync_actor bA)) (ss_of meB a (sync_actor bB))) a v q
+   <-> mem q (gaps 0 (p_last p) (p_seqs p))).
+Proof.
+  intros meA meB a bA rsA bB rsB v p q. apply partial_request_is_exactly_the_missing_seqs. vm_compute. reflexivity.
+Qed.
+Print Assumptions C04_partial_request_is_exactly_the_missing_seqs.
 
 Example C04_nonvacuous :
   let us := mkSstate 1 [(2, 10)] [(2, [(3, 5)])] [(2, [(7, [(0, 2)])])] in
